@@ -986,7 +986,7 @@ def loop_assigned_locals(body, header):
     return out
 
 
-def through_loops(body, program=None, keep_back=False, **kw):
+def through_loops(body, program=None, keep_back=False, nested=False, **kw):
     """Paths entry -> return/panic where every loop is abstracted: after a loop header is reached, execution
     resumes *at the header* with loop-modified locals replaced by fresh symbols ('L', n) and all other locals
     keeping their pre-loop terms (they are loop invariant by construction).  Loop back edges are dropped, so
@@ -995,11 +995,15 @@ def through_loops(body, program=None, keep_back=False, **kw):
     opts = Options(program=program, **kw)
     results = []
     budget = [opts.max_paths]
+    # nested=True: a loop header reached from inside a loop nested in it is a back edge of the *enclosing* loop (kind
+    # 'back', value = that header); symbols of a nested loop are ('L', local, header) so that they cannot be confused
+    # with the enclosing loop's ('L', local); 'loop' events carry the number of path conditions collected so far.
+    loops_ = body.loops() if nested else {}
 
     def entry_sym(l, _n=body.arg_count):
         return ("p", l) if 1 <= l <= _n else ("uninit", l)
 
-    def run_from(start, env, conds, events, assumed, first, depth, symf=entry_sym):
+    def run_from(start, env, conds, events, assumed, first, depth, symf=entry_sym, stack=()):
         e = Enumerator(body, opts)
         loc = dict(env)
         e.run(start=start, sym=symf, init_env=loc)
@@ -1021,7 +1025,7 @@ def through_loops(body, program=None, keep_back=False, **kw):
             asm = tuple(dict.fromkeys(tuple(assumed) + p.assumed))
             if p.kind == "cut":
                 h = p.value
-                if h == start and not first:
+                if (h == start and not first) or (nested and h in stack):
                     # back edge of the loop we are abstracting: the iteration relation, not part of the summary
                     if keep_back:
                         results.append(Path(tuple(allc), "back", h, ev, p.env, p.heap, p.end, p.blocks, asm))
@@ -1032,10 +1036,14 @@ def through_loops(body, program=None, keep_back=False, **kw):
                 changed = loop_assigned_locals(body, h)
                 inv_env = {l: v for l, v in p.env.items() if l not in changed}
 
-                def symf2(l, _c=changed, _prev=symf):
-                    return ("L", l) if l in _c else _prev(l)
+                encl = tuple(x for x in stack + (() if first else (start,)) if h in loops_.get(x, ())) if nested else ()
+
+                def symf2(l, _c=changed, _prev=symf, _h=h, _in=bool(encl)):
+                    if l in _c:
+                        return ("L", l, _h) if _in else ("L", l)
+                    return _prev(l)
                 pre_vals = tuple(sorted((l, p.env[l]) for l in changed if l in p.env))
-                run_from(h, inv_env, allc, ev + (("loop", h, pre_vals),), asm, False, depth + 1, symf2)
+                run_from(h, inv_env, allc, ev + (("loop", h, pre_vals, len(allc)),), asm, False, depth + 1, symf2, encl)
             else:
                 results.append(Path(tuple(allc), p.kind, p.value, ev, p.env, p.heap, p.end, p.blocks, asm))
 
